@@ -162,7 +162,14 @@ func (a *Adv) Step() string {
 		p.OutSeq += k
 		id := p.NextID()
 		label = fmt.Sprintf("app %s seq=%d skipping %d (T=%d)", id, p.OutSeq, k, T)
-		a.sendApp(id, MsgOpt{})
+		o := MsgOpt{}
+		if a.o.AppTypes && ch.Chance("toohighanddefective", 1, 4) {
+			// ahead of the expected number AND without SendingTime: whatever the reaction, the message does
+			// not carry the expected number
+			o.NoTime = true
+			label += " no SendingTime"
+		}
+		a.sendApp(id, o)
 		env.Stat("fault_sequence_gap")
 	case 2: // too low without PossDup
 		if T <= 1 {
